@@ -38,7 +38,7 @@ def run_condition(relpath, func, timeout_s=40, extra_env=None):
     if "Confirmed over all paths" in text:
         res["status"] = "confirmed"
     else:
-        m = re.search(r"error: (.*) when calling (\w+)\((.*)\)(?: \(which (.*)\))?", text)
+        m = re.search(r"error: (.*?) when calling (\w+)\((.*?)\)(?: \(which (.*?)\))?\s*$", text, re.M)
         if m:
             res["status"] = "refuted"
             res["counterexample"] = {"what": m.group(1), "func": m.group(2), "args": m.group(3), "result": m.group(4)}
@@ -49,9 +49,9 @@ def run_condition(relpath, func, timeout_s=40, extra_env=None):
     return res
 
 
-def crosshair_obligation(rep, relpath, func, twin=None, timeout_s=40, key=None, replay_kind="crosshair"):
+def crosshair_obligation(rep, relpath, func, twin=None, timeout_s=40, key=None, replay_kind="crosshair", extra_env=None):
     """One obligation decided by CrossHair, plus its reachability twin (post: False must be refuted)."""
-    r = run_condition(relpath, func, timeout_s)
+    r = run_condition(relpath, func, timeout_s, extra_env=extra_env)
     rep.obligations += 1
     rep.paths += 1
     rep.completed += 1
@@ -60,12 +60,12 @@ def crosshair_obligation(rep, relpath, func, twin=None, timeout_s=40, key=None, 
         rep.discharged += 1
     elif r["status"] == "refuted":
         ce = r["counterexample"]
-        rep.candidate({"kind": replay_kind, "file": relpath, "func": func, "args": ce["args"], "what": ce["what"]},
+        rep.candidate({"kind": replay_kind, "file": relpath, "func": func, "args": ce["args"], "what": ce["what"], "env": extra_env or {}},
                       f"CrossHair counterexample for {func}({ce['args']}): {ce['what']}", key=key or f"crosshair:{func}")
     else:
         rep.inconclusive.append(f"CrossHair {func}: {r['status']} ({r['message'][-160:]})")
     if twin:
-        t = run_condition(relpath, twin, timeout_s)
+        t = run_condition(relpath, twin, timeout_s, extra_env=extra_env)
         rep.obligations += 1
         if t["status"] == "refuted":
             rep.discharged += 1          # the assertion is reachable: the contract above is not vacuous
@@ -79,6 +79,7 @@ def crosshair_obligation(rep, relpath, func, twin=None, timeout_s=40, key=None, 
 def replay_counterexample(spec):
     """Re-run the contract function concretely on CrossHair's counterexample (clean process, real library)."""
     import importlib.util
+    os.environ.update(spec.get("env") or {})
     path = os.path.join(ROOT, spec["file"])
     sp = importlib.util.spec_from_file_location("xh_replay_mod", path)
     mod = importlib.util.module_from_spec(sp)
